@@ -81,3 +81,17 @@ Record Rel (ms : state) (ss : sstate) : Prop := mkRel {
 
 Definition is_crash (o : obs) : Prop := match o with CRASH _ => True | _ => False end.
 Definition ops_ok (h : list op) : Prop := Forall op_ok h.
+
+(* the state reached by a history *)
+Fixpoint final (c : cfg) (s : state) (h : list op) : state :=
+  match h with [] => s | o :: h' => final c (fst (step c s o)) h' end.
+
+(* the operation has an uninitialized handle in an argument position (for malloc(entries, dtype, src) an
+   uninitialized src means "no source" and is not misuse) *)
+Definition uses_uninit (s : state) (o : op) : Prop :=
+  match o with
+  | OSlice _ i _ _ | OCast _ i _ | OClone _ i | OCopyFromH i _ _ _ | OCopyToH i _ _ => geth (hs s) i = None
+  | OCopyFromM a b _ _ _ | OCopyToM a b _ _ _ => geth (hs s) a = None \/ geth (hs s) b = None
+  | _ => False
+  end.
+
